@@ -33,7 +33,8 @@ def TS(name, op, maxn, si, tiers, **kw):
     o.name = "tree.%s.shape%d" % (name, si)
     o.desc = "Tree %s from red-black shape %s, symbolic keys/values" % (name, show(t))
     return o
-OPS = [("set", "OP_SET"), ("rem", "OP_REM"), ("get", "OP_GET"), ("iter", "OP_ITER"), ("remabsent", "OP_REM_ABSENT"), ("clear", "OP_CLEAR"), ("mark", "OP_MARK")]
+OPS = [("set", "OP_SET"), ("rem", "OP_REM"), ("get", "OP_GET"), ("iter", "OP_ITER"), ("remabsent", "OP_REM_ABSENT"), ("clear", "OP_CLEAR"), ("mark", "OP_MARK"), ("cmphash", "OP_CMPHASH")]
+CMPRC = ACC + ["iter_init:v2_iter_init", "iter_next:v2_iter_next", "get:v2_get", "verif_hash:v_hash_tree", "Tree_Get:v_tree_get"]
 def family(maxn, tiers, checks, tag, timeout):
     out = []
     shapes = all_shapes(maxn)
@@ -41,7 +42,9 @@ def family(maxn, tiers, checks, tag, timeout):
         for nm, op in OPS:
             if count(shapes[si]) == 0 and nm == "rem":
                 continue
-            o = TS(nm, op, maxn, si, tiers, timeout=timeout)
+            o = TS(nm, op, maxn, si, tiers, timeout=timeout, **(dict(replace_calls=CMPRC) if nm == "cmphash" else {}))
+            if nm == "cmphash":
+                o.unwindset = list(o.unwindset) + ["k2_index.0:%d" % (maxn + 3), "v_tree_get.0:%d" % (maxn + 3), "Tree_Cmp.0:%d" % (maxn + 3), "Tree_Hash.0:%d" % (maxn + 3)]
             o.name = "tree.%s.%s%d" % (nm, tag, si)
             o.checks = list(checks)
             out.append(o)
